@@ -4,6 +4,7 @@ use super::*;
 
 pub enum Error {
     InvalidSource(&'static str),
+    InvalidPath(PathBuf),
     IOError(io::Error),
     OSError(Errno),
     UnsupportedOperation,
